@@ -263,11 +263,209 @@ def kani_part(ctx):
     kanirun.judge(ctx, specs, res, 'c08')
 
 
+def storage_signing(ctx):
+    """JwkDocumentExt::create_jws (CoreDocument; the IotaDocument impl forwards to it): the async body is executed symbolically from
+    its initial state (every awaited storage call completes immediately with an unconstrained result); on every successful path
+    the protected header is exactly what the options ask for, the key id is looked up for the resolved method, the signature is
+    produced over the encoder's signing input with that key, and the token is the encoder's output with that signature."""
+    import c09
+    prog, info = load(c09.CRATES, src_only=c09.SRC)
+    ctx.extra['mir_storage'] = info
+    A = Auditor(ctx, prog)
+    REP = {'scenario': 'storage_signing'}
+    f = prog.one(r"^jwk_document_ext::<impl at [^>]*>::create_jws::\{closure#0\}$")
+    fi = prog.one(r"^iota_document::<impl at [^>]*>::create_jws::\{closure#0\}$")
+    paths, ex = c09.coroutine_paths(ctx, prog, f, max_paths=400000)
+    OPT = prog.structs['JwsSignatureOptions']
+    okp = [p for p in paths if p.kind == 'return' and isinstance(c09.result_of(p), VAgg) and c09.result_of(p).variant == 'Ok']
+    if not okp:
+        raise Refuse('create_jws has no successful path')
+    ctx.bounds.append('create_jws: all %d paths of the async body from its initial state, awaited calls complete immediately' % len(paths))
+    # the options argument: the captured reference whose fields the body branches on
+    base = None
+    for c in okp[0].calls:
+        for a in c.args:
+            for sub in subterms(a):
+                fp = field_path(sub) if isinstance(sub, tuple) and sub and sub[0] == 'field' else None
+                if fp and fp[0] == 'co' and len(fp[1]) >= 2 and re.search(r'set_(typ|kid|nonce|cty|url|custom)$', c.name) and base is None:
+                    base = ('field', ('leaf', 'co'), fp[1][0][1], '')
+    if base is None:
+        # no option was Some on that path: look through all successful paths
+        for p in okp:
+            for c in p.find_calls(r'set_(kid|typ|nonce|cty|url|custom)$'):
+                for sub in subterms(c.args[1]):
+                    fp = field_path(sub) if isinstance(sub, tuple) and sub and sub[0] == 'field' else None
+                    if fp and fp[0] == 'co' and len(fp[1]) >= 2:
+                        base = ('field', ('leaf', 'co'), fp[1][0][1], '')
+            if base:
+                break
+    if base is None:
+        raise Refuse('options argument of create_jws not identified')
+
+    def opt(name):
+        return ('field', ('deref', base), OPT.index(name), '')
+
+    def from_opt(t, name):
+        """t is (a clone of) the content of options.<name>"""
+        return strip(t) == ('field', opt(name), 0, 'Some')
+
+    def r_sign(p):
+        rm = [c for c in p.find_calls(r'CoreDocument::resolve_method$') if p.took(c, 'Some')]
+        if len(rm) != 1 or not mentions(rm[0].args[0], r'^co$') or strip(rm[0].args[2]) != ('agg', 'Option', 'None', ()):
+            return 'method not resolved (unscoped) in this document by the given fragment'
+        method = ('field', rm[0].ret, 0, 'Some')
+        data = [c for c in p.find_calls(r'VerificationMethod::data$') if strip(c.args[0]) == method]
+        if not data:
+            return 'key material not read from the resolved method'
+        jwk = [s for s in subterms(p.term()) if False]
+        jwk_t = None
+        for c in p.find_calls(r'JwkStorage>::sign$'):
+            jwk_t = strip(c.args[3])
+        if jwk_t is None or not is_sub_term(jwk_t, data[0].ret):
+            return 'the public key handed to the signer is not the resolved method\'s JWK'
+        # ---- header
+        hn = p.find_calls(r'JwsHeader::new$')
+        if len(hn) != 1:
+            return 'header not created once'
+        sa = p.find_calls(r'JwsHeader::set_alg$')
+        al = [c for c in p.find_calls(r'Jwk::alg$') if is_sub_term(c.args[0], data[0].ret)]
+        if len(sa) != 1 or not al:
+            return 'alg not set from the method key'
+        ps = [c for c in p.find_calls(r'<impl str>::parse$') if p.took(c, 'Ok')]
+        if not ps or strip(sa[0].args[1]) != ('field', ps[-1].ret, 0, 'Ok'):
+            return 'header alg is not the parsed alg of the method key'
+        if p.took(al[0], 'Some') and not is_sub_term(ps[-1].args[0], al[0].ret):
+            return 'header alg parsed from something else than the key\'s alg'
+        sk = p.find_calls(r'set_kid$')
+        if len(sk) != 1:
+            return 'kid set %d times' % len(sk)
+        if p.took(opt('kid'), 'Some'):
+            if not from_opt(sk[0].args[1], 'kid'):
+                return 'kid override not used as the header kid'
+        elif p.took(opt('kid'), 'None'):
+            mid = [c for c in p.find_calls(r'VerificationMethod::id$') if strip(c.args[0]) == method]
+            if not mid or strip(sk[0].args[1]) != strip(mid[0].ret):
+                return 'without an override the header kid is not the resolved method\'s id'
+        else:
+            return 'options.kid not examined'
+        sj = p.find_calls(r'set_jwk$')
+        if p.took(opt('attach_jwk'), 'true'):
+            if len(sj) != 1 or strip(sj[0].args[1]) != jwk_t:
+                return 'attach_jwk: the attached key is not the method\'s JWK'
+        elif p.took(opt('attach_jwk'), 'false'):
+            if sj:
+                return 'jwk attached although not asked for'
+        else:
+            return 'options.attach_jwk not examined'
+        sb, sc = p.find_calls(r'set_b64$'), p.find_calls(r'set_crit$')
+        b64 = opt('b64')
+        unenc = p.took(b64, 'Some') and p.took(('field', b64, 0, 'Some'), 'false')
+        if unenc:
+            bv = sb[0].argvals[1] if len(sb) == 1 and sb[0].argvals else None
+            if len(sb) != 1 or len(sc) != 1 or not (isinstance(bv, VBool) and p.implies(z3.Not(bv.e))) or "b'b64'" not in term_str(sc[0].args[1]):
+                return 'b64=false requested but b64:false / crit:[b64] not both set'
+        elif p.took(b64, 'None') or (p.took(b64, 'Some') and p.took(('field', b64, 0, 'Some'), 'true')):
+            if sb or sc:
+                return 'b64 / crit set although the payload is to be base64url-encoded'
+        else:
+            return 'options.b64 not examined'
+        st = p.find_calls(r'set_typ$')
+        if len(st) != 1:
+            return 'typ set %d times' % len(st)
+        if p.took(opt('typ'), 'Some'):
+            if not from_opt(st[0].args[1], 'typ'):
+                return 'typ option not used'
+        elif p.took(opt('typ'), 'None'):
+            if "b'JWT'" not in term_str(st[0].args[1]):
+                return 'default typ is not JWT'
+        else:
+            return 'options.typ not examined'
+        for nm, setter in (('cty', r'set_cty$'), ('url', r'set_url$'), ('nonce', r'set_nonce$'), ('custom_header_parameters', r'set_custom$')):
+            cs = p.find_calls(setter)
+            if p.took(opt(nm), 'Some'):
+                if len(cs) != 1 or not from_opt(cs[0].args[1], nm):
+                    return 'options.%s not carried into the header' % nm
+            elif p.took(opt(nm), 'None'):
+                if cs:
+                    return 'header %s set although the option is absent' % nm
+            else:
+                return 'options.%s not examined' % nm
+        others = [c for c in p.calls if re.search(r'(JwsHeader|JwtHeader)::set_', c.name) and not re.search(r'set_(alg|kid|jwk|b64|crit|typ|cty|url|nonce|custom)$', c.name)]
+        if others:
+            return 'header parameter outside the options set: %s' % others[0].name.split('::')[-1]
+        # every setter acts on the one header
+        for c in sa + sk + sj + sb + sc + st:
+            if not is_sub_term(c.args[0], hn[0].ret):
+                return '%s applied to another header' % c.name.split('::')[-1]
+        # ---- key id, encoder, signature
+        md = [c for c in p.find_calls(r'MethodDigest::new$') if p.took(c, 'Ok') and strip(c.args[0]) == method]
+        gk = c09.awaited(p, r'KeyIdStorage>::get_key_id$')
+        if not md or len(gk) != 1 or strip(gk[0][0].args[1]) != ('field', md[0].ret, 0, 'Ok') or not p.took(c09.ready_val(gk[0][1]), 'Ok'):
+            return 'key id not looked up for the digest of the resolved method'
+        key_id = ('field', c09.ready_val(gk[0][1]), 0, 'Ok')
+        enc = [c for c in p.find_calls(r'CompactJwsEncoder::new_with_options$') if p.took(c, 'Ok')]
+        if len(enc) != 1 or not mentions(enc[0].args[0], r'^co$') or not is_sub_term(enc[0].args[1], hn[0].ret):
+            return 'encoder not built from the caller\'s payload and the header'
+        eo = term_str(strip(enc[0].args[2]))
+        if p.took(opt('detached_payload'), 'true'):
+            if 'Detached' not in eo or 'NonDetached' in eo:
+                return 'detached payload requested but the encoder is not in detached mode'
+        elif p.took(opt('detached_payload'), 'false'):
+            if 'NonDetached' not in eo:
+                return 'attached payload requested but the encoder is in detached mode'
+        else:
+            return 'options.detached_payload not examined'
+        encoder = ('field', enc[0].ret, 0, 'Ok')
+        sg = c09.awaited(p, r'JwkStorage>::sign$')
+        si = [c for c in p.find_calls(r'CompactJwsEncoder::signing_input$') if strip(c.args[0]) == encoder]
+        if len(sg) != 1 or not si or not p.took(c09.ready_val(sg[0][1]), 'Ok'):
+            return 'signature not obtained from the key storage'
+        call = sg[0][0]
+        if strip(call.args[1]) != key_id or strip(call.args[2]) != strip(si[0].ret):
+            return 'signer not given (key id of the method, signing input of the encoder)'
+        sig = ('field', c09.ready_val(sg[0][1]), 0, 'Ok')
+        ij = [c for c in p.find_calls(r'CompactJwsEncoder::into_jws$') if strip(c.args[0]) == encoder and strip(c.args[1]) == sig]
+        if not ij:
+            return 'token not assembled from the encoder and the produced signature'
+        out = strip(p.term(c09.result_of(p).fields[0]))
+        if not (out[0] == 'app' and re.search(r'Jws::new$', out[1]) and strip(out[2][0]) == strip(ij[0].ret)):
+            return 'returned token is not the assembled one'
+        return None
+    A.require('create_jws/header-follows-options-key-of-the-resolved-method', okp, r_sign, replay=REP)
+    A.no_panic('create_jws/no-panic', paths, replay=REP)
+
+    # the IotaDocument implementation hands the same arguments to its core document's create_jws and returns that result
+    ipaths, iex = c09.coroutine_paths(ctx, prog, fi)
+
+    def r_fwd(p):
+        if p.kind != 'return':
+            return 'panic ' + p.msg
+        cd = p.find_calls(r'IotaDocument::core_document$')
+        cj = c09.awaited(p, r'<CoreDocument as .*JwkDocumentExt>::create_jws$')
+        if len(cd) != 1 or len(cj) != 1 or not mentions(cd[0].args[0], r'^co$'):
+            return 'core document create_jws not awaited exactly once'
+        call, poll = cj[0]
+        if strip(call.args[0]) != strip(cd[0].ret):
+            return 'create_jws not called on this document\'s core document'
+        caps = [field_path(strip(a)) for a in call.args[1:]]
+        if any(c is None or c[0] != 'co' for c in caps) or len({tuple(c[1]) for c in caps}) != 4:
+            return 'arguments are not the four distinct captured arguments (storage, fragment, payload, options)'
+        if [c[1][0][1] for c in caps] != sorted(c[1][0][1] for c in caps):
+            return 'captured arguments handed over in another order'
+        return None if strip(p.term(c09.result_of(p))) == strip(c09.ready_val(poll)) else 'result is not the core document\'s result'
+    A.require('create_jws[IotaDocument]/forwards-to-the-core-document', ipaths, r_fwd, replay=REP)
+
+
+def is_sub_term(t, want):
+    want = strip(want)
+    return any(strip(s) == want or s == want for s in subterms(t))
+
+
 def main(ctx):
     prog, info = load(CRATES)
     ctx.extra['mir'] = info
     ctx.outside += ['serde_json text of the flattened/general envelopes (escaping of unencoded payloads - observed natively: payloads containing `"` '
-                    'do not decode, see DESIGN.md)', 'JwkDocumentExt::create_jws (async state machine; not encoded; CoreDocument::verify_jws and resolve_method are)', 'real signatures', 'base64url codec']
+                    'do not decode, see DESIGN.md)', 'create_credential_jwt / create_presentation_jwt (claim serialisation in front of create_jws; create_jws itself is encoded)', 'real signatures', 'base64url codec']
     guarded(ctx, 'charset kernel', 'M', lambda: charset_m(ctx, prog))
     guarded(ctx, 'encoder audit', 'M', lambda: run(ctx, prog))
     if os.environ.get('VERIF_SKIP_K') != '1':
@@ -287,3 +485,4 @@ def main(ctx):
         c03.run(ctx, prog2, only=r'^verify_jws/')
         c04.run(ctx, prog2, only=r'^resolve_method/|^resolve_method_ref/')
     guarded(ctx, 'verification side', 'M', verification_side)
+    guarded(ctx, 'storage-backed signing', 'M', lambda: storage_signing(ctx))
